@@ -144,7 +144,8 @@ func sameSet(a, b []string) bool {
 func tuneBlockSum(r Rng, sc *pairScenario, want int) {
 	base := r.Message(sc.A.Mycall, "TUNE")
 	for k := 0; k < 5000; k++ {
-		mid := fmt.Sprintf("T%s%04d", r.StringFrom(alnumUpper, 3), k)
+		// (MIDs of 4..12 characters: with a fixed length the sums cover only part of the residues)
+		mid := "T" + r.StringFrom(alnumUpper, 3+r.Intn(9))
 		base.Header.Set("Mid", mid)
 		p, err := base.Proposal(fbb.Wl2kProposal)
 		if err != nil {
